@@ -4,6 +4,7 @@ import itertools
 from hypothesis import strategies as st
 
 from vf.engine import Sub, require
+from vf import files
 from vf.common import (bits_st, bits_of_len, index_st, slice_st, cls_st, mk, attempt, is_raised, lenbucket, CLASSES,
                        make_promotable, promo_ok, PROMO_KINDS, MEM_ROUTES, build_route, cls_of)
 
@@ -14,7 +15,7 @@ RULE = ("cases = (class, content, operation, arguments, construction route of ea
 ASSUMPTIONS = ["s[i] is compared by value with the i-th bit (True == 1)",
                "left-hand promotable operands are those whose own + defers to the bitstring (str, bytes, bytearray, memoryview, list, tuple, bitarray, array.array)"]
 
-LEFT_PROMO = ['str_bin', 'str_hex', 'bytes', 'bytearray', 'memoryview', 'list', 'tuple', 'bitarray', 'array']
+LEFT_PROMO = ['str_bin', 'str_hex', 'bytes', 'bytearray', 'memoryview', 'list', 'tuple', 'bitarray', 'array', 'list_truthy']
 RIGHT_PROMO = [k for k in PROMO_KINDS if k not in CLASSES and k != 'BytesIO'] + ['BytesIO']
 
 
@@ -216,12 +217,62 @@ def run_small(case):
     return {'nt': n > 0, 'labels': ['n=%d' % n]}
 
 
+# --------------------------------------------------------------------------------------------- file-backed objects (incl. large)
+
+@st.composite
+def file_case(draw, tier):
+    from vf.common import big_bits_st
+    big = draw(st.integers(0, 3)) == 0
+    bits = draw(big_bits_st()) if big else draw(bits_st(max_len=600, long=True))
+    n = bits['n'] if big else len(bits)
+    return {'cls': draw(cls_st), 'bits': bits, 'route': draw(st.sampled_from(files.FILE_ROUTES)), 'salt': draw(st.integers(0, 40)),
+            'idx': [draw(index_st(n)) for _ in range(4)], 'slices': [draw(slice_st(n)) for _ in range(3)], 'other': draw(bits_st(max_len=24)), 'k': draw(st.integers(0, 3))}
+
+
+def run_file(case):
+    from vf.common import expand_bits
+    d = expand_bits(case['bits'])
+    n = len(d)
+    with files.TempDir() as tmp:
+        s = files.build_file_route(case['cls'], d, case['route'], case['salt'], tmp)
+        require(len(s) == n and bool(s) is (n > 0), 'len/bool of a file-backed bitstring differ', got=len(s), expected=n, route=case['route'])
+        for i in case['idx'] + [n, -n - 1, n - 1, -1, 0, -n]:
+            res = attempt(lambda: s[i])
+            if -n <= i < n:
+                require(res == (d[i] == '1') and not is_raised(res), 'index on a file-backed bitstring differs', i=i, n=n, got=res, route=case['route'])
+            else:
+                require(is_raised(res, IndexError), 'out-of-range index on a file-backed bitstring must raise IndexError', i=i, n=n, got=res, route=case['route'])
+        for a, b, c in case['slices'] + [[None, None, -1], [-3, None, None], [None, 5, None]]:
+            if n > 100000 and c is not None and abs(c) < 3 and (a is None or b is None):
+                continue
+            res = attempt(lambda: s[a:b:c])
+            exp = d[a:b:c]
+            require(not is_raised(res) and len(res) == len(exp) and res.bin == exp, 'slice of a file-backed bitstring differs', slice=[a, b, c], n=n, route=case['route'],
+                    got=res if is_raised(res) else len(res), expected=len(exp))
+        o = mk('Bits', case['other'])
+        r = s + o
+        require(len(r) == n + len(o) and r[n:].bin == case['other'] and r[:64].bin == (d + case['other'])[:64] and type(r).__name__ == case['cls'], 's + t differs for a file-backed s', n=n, got=len(r), route=case['route'])
+        r = o + s
+        require(len(r) == n + len(o) and r[:len(o) + 64].bin == (case['other'] + d)[:len(o) + 64] and r[-64:].bin == (case['other'] + d)[-64:], 't + s differs for a file-backed s', n=n, got=len(r))
+        if n <= 700000:
+            r = s * case['k']
+            require(len(r) == n * case['k'] and (case['k'] == 0 or r[-32:].bin == (d * case['k'])[-32:]), 's * n differs for a file-backed s', n=n, k=case['k'], got=len(r))
+        if n <= 5000:
+            require(list(s) == [c == '1' for c in d], 'iteration differs')
+        else:
+            it = iter(s)
+            require([next(it) for _ in range(40)] == [c == '1' for c in d[:40]], 'iteration differs')
+        del s, r
+    return {'nt': n > 0, 'labels': [case['route'], 'big' if n > 30000 else 'small', case['cls']]}
+
+
 SUBCHECKS = [
     Sub('C01.len_bool_iter', run_lbi, strategy=lbi_case, ambient=('bytealigned',), examples={'quick': 3000, 'thorough': 30000}),
     Sub('C01.index', run_index, strategy=index_case, ambient=('bytealigned',), examples={'quick': 6000, 'thorough': 80000}),
     Sub('C01.slice', run_slice, strategy=slice_case, ambient=('bytealigned',), examples={'quick': 12000, 'thorough': 200000}),
     Sub('C01.concat', run_concat, strategy=concat_case, ambient=('bytealigned',), examples={'quick': 12000, 'thorough': 200000}),
     Sub('C01.repeat', run_repeat, strategy=repeat_case, ambient=('bytealigned',), examples={'quick': 6000, 'thorough': 80000}),
+    Sub('C01.file_backed', run_file, strategy=file_case, examples={'quick': 1600, 'thorough': 20000}),
     Sub('C01.small_world', run_small, enum=small_world, examples={'quick': 0, 'thorough': 0},
         enum_exhaustive_note='every content of length <= 5 (quick) / <= 7 (thorough) x every index in [-n-2, n+2] x every (start, stop) in '
                              '({None} u [-n-2, n+2])^2 x step in {None, +-1, +-2, +-3} x 4 classes'),
